@@ -66,6 +66,14 @@ CLAIMED = {
             "Machine-checked proof on the driver model that the state after the loop is `adv` iterated nit times, that two runs differing only in save times and monitors have the same trajectory, and that N iterations followed by a restart of M reach the state, time and cumulative count of N+M (hidden multistep state kept by restart, reset by solve). Partial: full characterisation of monitor logs and bitwise repeatability are checked on the implementation (L-driver, sweep).",
             "Trusted: Lean kernel + standard axioms; hypothesis hkeep (snapshot side steps restore the solver state) is what the repaired code implements and L-driver validates (gear with snapshots); sampling.",
             "DESIGN.md 4/C08"),
+    'C13': ("Lean 4 equivariance theorems for the 1D space operator under reflection and change of units, for arbitrary kernels obeying mirror / homogeneity laws, with the laws proved for the flux and limiter kernels + exact-Q correspondence + twin-problem sweep",
+            "Machine-checked proof that rhs(mirror problem)(mirror data) = mirror(rhs) and rhs'(scaled data) = (f/l) rhs for every mesh, reconstruction, boundary treatment and n >= 1, given the kernel laws; mirror laws proved for every flux (C02) and limiter (C12 oddness), homogeneity for minmod/superbee (exact) and vanalbada/vanleer (bound). Partial: lift through integrators/driver, boundary-kernel mirror laws, and the bit-for-bit clause are explored by the twin-problem sweep; units with the regularised limiters fail (known finding K1); implicit integrators deviate by O(epsdiff) under reflection (known finding K3).",
+            "Trusted: Lean kernel + standard axioms; transcription of fvm1d (validated by L-rhs1d) and kernels; sampling for the un-proved clauses.",
+            "DESIGN.md 4/C13"),
+    'C10': ("Lean 4 theorems (admissible set is a convex cone; s U - F(U) admissible under the Einfeldt bounds; HLL star state admissible; the code's HLLE wave speeds satisfy the bounds and its flux is the HLL flux) + exact-Q correspondence + positivity sweep",
+            "PARTIAL machine-checked proof: the ingredients of the Einfeldt/Perthame-Shu positivity argument are proved for the Euler kernels exactly as coded (cone convexity, two-sided wave-speed lemma, admissible HLL intermediate state, HLLE = HLL with the code's own speeds which satisfy the bounds by construction; positive HLL depth for shallow water). Not proved: CFL<=1/2 on cell speeds implies the face wave-speed condition; HLLC; the assembled one-step statement. These are explored by the sweep (strong jumps, ratios 1e3, Mach 3, 40 steps).",
+            "Trusted: Lean kernel + standard axioms; transcription of flux kernels (L-flux-*), pipeline (L-rhs1d), integrators (L-int); sampling for the un-proved clauses.",
+            "DESIGN.md 4/C10"),
 }
 
 NOT_YET = {}
